@@ -668,4 +668,62 @@ theorem cd_poly_second_order (ps : List Poly) (sp : Option Space) (x : Vec) (s :
   intro t
   rw [getR_polyFun ps _ j hj, bump, ← Rat.cast_add, polyLine_eval _ x _ hi]
 
+/-! ### `check_jacobian(indices=…)` inherits the guarantees -/
+
+/-- The global indices of `check_jacobian(indices=…)`: for each variable, its selected local
+    components shifted by the sizes of the previous variables. -/
+theorem indices_resolved (sizes : List Nat) (sels : List Sel) (g : Nat) :
+    g ∈ globalIndices sizes sels 0 ↔
+      ∃ v, v < sizes.length ∧ ∃ l ∈ selLocal (sizes.getD v 0) (sels.getD v none),
+        g = (sizes.take v).sum + l :=
+  mem_globalIndices sizes sels g
+
+/-- The sub-Jacobian `jac[output][input]` is the corresponding block of the flat Jacobian. -/
+theorem blocks_split (rows : List Vec) (ro rs co cs r c : Nat) (hr : r < rs) (hc : c < cs) :
+    getR ((block rows ro rs co cs).getD r []) c = getR (rows.getD (ro + r) []) (co + c) :=
+  block_get rows ro rs co cs r c hr hc
+
+/-- The verdict only depends on the selected entries. -/
+theorem check_ignores_unselected (t : ℚ) (a a' b : List Vec) (rows cols : List Nat)
+    (h : ∀ r ∈ rows, ∀ c ∈ cols, getR (a.getD r []) c = getR (a'.getD r []) c) :
+    checkJac t a b rows cols = checkJac t a' b rows cols := by
+  unfold checkJac
+  rw [Bool.eq_iff_iff]
+  simp only [List.all_eq_true]
+  constructor
+  · intro H r hr c hc; rw [← h r hr c hc]; exact H r hr c hc
+  · intro H r hr c hc; rw [h r hr c hc]; exact H r hr c hc
+
+/-- An exact analytic Jacobian is accepted as soon as the approximation error of every selected
+    entry is within the threshold (e.g. `|d|/2·sup|f''| ≤ t` by `fd_poly_first_order`). -/
+theorem check_accepts_exact (t ε : ℚ) (D b : List Vec) (rows cols : List Nat) (ht : 0 ≤ t)
+    (hε : ε ≤ t)
+    (herr : ∀ r ∈ rows, ∀ c ∈ cols, |getR (b.getD r []) c - getR (D.getD r []) c| ≤ ε) :
+    checkJac t D b rows cols = true := by
+  unfold checkJac
+  simp only [List.all_eq_true]
+  intro r hr c hc
+  exact (check_entry_sound t _ _ 0 ε ht (herr r hr c hc)).1 hε
+
+/-- A selected analytic entry wrong by more than `t·(1+|approx|) + ε` is rejected. -/
+theorem check_rejects_wrong (t ε : ℚ) (D a b : List Vec) (rows cols : List Nat) (ht : 0 ≤ t)
+    (r c : Nat) (hr : r ∈ rows) (hc : c ∈ cols)
+    (herr : |getR (b.getD r []) c - getR (D.getD r []) c| ≤ ε)
+    (hwrong : t + t * |getR (b.getD r []) c| + ε
+      < |getR (a.getD r []) c - getR (D.getD r []) c|) :
+    checkJac t a b rows cols = false := by
+  unfold checkJac
+  rw [Bool.eq_false_iff]
+  intro hall
+  simp only [List.all_eq_true] at hall
+  have h1 := hall r hr c hc
+  have h2 := (check_entry_sound t (getR (D.getD r []) c) (getR (b.getD r []) c)
+    (getR (a.getD r []) c - getR (D.getD r []) c) ε ht herr).2 hwrong
+  rw [add_sub_cancel] at h2
+  rw [h2] at h1
+  exact Bool.false_ne_true h1
+
+example : checkJac (1/8) [[1, 100]] [[1 + 1/16, 0]] [0] [0] = true ∧
+    checkJac (1/8) [[2, 0]] [[1 + 1/16, 0]] [0] [0] = false := by decide +kernel
+
 end GV.C16
